@@ -1,6 +1,5 @@
 import Librfn.Gen.FibreSeq
 import Librfn.Model.Fibre
-import Librfn.Props.C02Tie
 import Std.Tactic.BVDecide
 /-!
 # C03 — tie T for `get_next_wakeup` (the value `fibre_scheduler_next` returns when no fibre yielded)
@@ -18,7 +17,10 @@ x86-64 layout), the inline `list_empty` / `list_peek` of `list.h` are inlined, `
   `getNextWakeup k`, about which C03's "never oversleeps" theorems are proved.
 -/
 namespace Librfn.C03.TieWake
-open Librfn.Gen Librfn.Gen.FibreSeq Librfn.C02.Tie
+open Librfn.Gen Librfn.Gen.FibreSeq
+
+/-- `containerof(n, fibre_t, link)->duetime` (x86-64 layout of `fibre_t`: `duetime` at 12, `link` at 16) -/
+def dueAt (mem : Mem) (n : BitVec 64) : BitVec 32 := Mem.load32 mem (n - 4#64)
 
 theorem get_next_wakeup_generated (cur : BitVec 64) (st now : BitVec 32) (runq aq timerq : BitVec 64) (taint : BitVec 32) (e : BitVec 8)
     (mem : Mem) :
